@@ -1,113 +1,7 @@
-/- C41 helper: definitions of the invariants of the fakenet feeder system and the structural layer
-(valid program counters, mutex, close-once, nobody parked after close). -/
-import GopModel.Lemmas.TS
-import GopModel.Generated.SyncFakenet
+/- C41 helper: the structural layer (valid pcs, mutex, close-once, nobody parked after close) is preserved by every step. -/
+import GopModel.Lemmas.FakenetDefs
 namespace GopModel.C41
 open GopModel.TS GopModel.Generated.SyncFakenet
-
-/-- between `f.mu.Lock()` and `f.mu.Unlock()` of `close` -/
-def holds (t : Thread) : Bool :=
-  t.fn == 2 && (t.pc == 1 || t.pc == 2 || t.pc == 3 || t.pc == 4)
-
-def Valid (t : Thread) : Prop :=
-  (t.fn = 0 ∧ t.pc < 5 ∧ (t.st = .parked → t.pc = 0 ∨ t.pc = 2) ∧ (t.st = .done → t.pc = 1 ∨ t.pc = 3 ∨ t.pc = 4)) ∨
-  (t.fn = 1 ∧ t.pc < 5 ∧ (t.st = .parked → t.pc = 0 ∨ t.pc = 3) ∧ (t.st = .done → t.pc = 1 ∨ t.pc = 4)) ∨
-  (t.fn = 2 ∧ t.pc < 6 ∧ t.st ≠ .parked ∧ (t.st = .done → t.pc = 5))
-
-theorem instr_cases {t : Thread} {ins : Instr} (hv : Valid t) (h : instrAt sys t = some ins) :
-    (t.fn = 0 ∧ t.pc = 0 ∧ ins = .select [.send 0 .a 2, .recv 2 none 1]) ∨
-    (t.fn = 0 ∧ t.pc = 1 ∧ ins = .ret .eof) ∨
-    (t.fn = 0 ∧ t.pc = 2 ∧ ins = .select [.recv 1 (some .b) 3, .recv 2 none 4]) ∨
-    (t.fn = 0 ∧ t.pc = 3 ∧ ins = .ret (.reg .b)) ∨
-    (t.fn = 0 ∧ t.pc = 4 ∧ ins = .ret .eof) ∨
-    (t.fn = 1 ∧ t.pc = 0 ∧ ins = .select [.recv 0 (some .a) 2, .recv 2 none 1]) ∨
-    (t.fn = 1 ∧ t.pc = 1 ∧ ins = .ret .unit) ∨
-    (t.fn = 1 ∧ t.pc = 2 ∧ ins = .call .a .b 3) ∨
-    (t.fn = 1 ∧ t.pc = 3 ∧ ins = .select [.send 1 .b 0, .recv 2 none 4]) ∨
-    (t.fn = 1 ∧ t.pc = 4 ∧ ins = .ret .unit) ∨
-    (t.fn = 2 ∧ t.pc = 0 ∧ ins = .lock 1) ∨
-    (t.fn = 2 ∧ t.pc = 1 ∧ ins = .brFlag 4 2) ∨
-    (t.fn = 2 ∧ t.pc = 2 ∧ ins = .setFlag 3) ∨
-    (t.fn = 2 ∧ t.pc = 3 ∧ ins = .close 2 4) ∨
-    (t.fn = 2 ∧ t.pc = 4 ∧ ins = .unlock 5) ∨
-    (t.fn = 2 ∧ t.pc = 5 ∧ ins = .ret .unit) := by
-  rcases hv with ⟨hfn, hpc, _⟩ | ⟨hfn, hpc, _⟩ | ⟨hfn, hpc, _⟩
-  · have : t.pc = 0 ∨ t.pc = 1 ∨ t.pc = 2 ∨ t.pc = 3 ∨ t.pc = 4 := by omega
-    rcases this with e|e|e|e|e <;>
-      simp [instrAt, sys, hfn, e, doFn, doCode] at h <;> simp [hfn, e, h]
-  · have : t.pc = 0 ∨ t.pc = 1 ∨ t.pc = 2 ∨ t.pc = 3 ∨ t.pc = 4 := by omega
-    rcases this with e|e|e|e|e <;>
-      simp [instrAt, sys, hfn, e, runFn, runCode] at h <;> simp [hfn, e, h]
-  · have : t.pc = 0 ∨ t.pc = 1 ∨ t.pc = 2 ∨ t.pc = 3 ∨ t.pc = 4 ∨ t.pc = 5 := by omega
-    rcases this with e|e|e|e|e|e <;>
-      simp [instrAt, sys, hfn, e, closeFn, closeCode] at h <;> simp [hfn, e, h]
-
-/-- the select cases a valid thread is parked in -/
-theorem parked_cases {t : Thread} (hv : Valid t) :
-    (t.st ≠ .parked ∧ parkedCases sys t = []) ∨
-    (t.st = .parked ∧ t.fn = 0 ∧ t.pc = 0 ∧ parkedCases sys t = [.send 0 .a 2, .recv 2 none 1]) ∨
-    (t.st = .parked ∧ t.fn = 0 ∧ t.pc = 2 ∧ parkedCases sys t = [.recv 1 (some .b) 3, .recv 2 none 4]) ∨
-    (t.st = .parked ∧ t.fn = 1 ∧ t.pc = 0 ∧ parkedCases sys t = [.recv 0 (some .a) 2, .recv 2 none 1]) ∨
-    (t.st = .parked ∧ t.fn = 1 ∧ t.pc = 3 ∧ parkedCases sys t = [.send 1 .b 0, .recv 2 none 4]) := by
-  by_cases hp : t.st = .parked
-  · right
-    rcases hv with ⟨hfn, _, h1, _⟩ | ⟨hfn, _, h1, _⟩ | ⟨hfn, _, h1, _⟩
-    · rcases h1 hp with e | e <;> simp [parkedCases, hp, instrAt, sys, hfn, e, doFn, doCode]
-    · rcases h1 hp with e | e <;> simp [parkedCases, hp, instrAt, sys, hfn, e, runFn, runCode]
-    · exact absurd hp h1
-  · left; exact ⟨hp, by simp [parkedCases, hp]⟩
-
-/-- what `close(f.done)` does to one thread -/
-theorem claim_props {t : Thread} (hv : Valid t) :
-    Valid (claimClosed sys 2 t) ∧ (claimClosed sys 2 t).fn = t.fn ∧ (claimClosed sys 2 t).st ≠ .parked ∧
-    (t.st ≠ .parked → claimClosed sys 2 t = t) ∧
-    (t.st = .parked → (claimClosed sys 2 t).st = .run ∧ (claimClosed sys 2 t).a = t.a ∧ (claimClosed sys 2 t).b = t.b ∧
-      ((t.pc = 0 ∧ (claimClosed sys 2 t).pc = 1) ∨ (t.pc = 2 ∧ t.fn = 0 ∧ (claimClosed sys 2 t).pc = 4) ∨
-       (t.pc = 3 ∧ t.fn = 1 ∧ (claimClosed sys 2 t).pc = 4))) := by
-  rcases parked_cases hv with ⟨h0, hc⟩ | ⟨h0, hf, hp, hc⟩ | ⟨h0, hf, hp, hc⟩ | ⟨h0, hf, hp, hc⟩ | ⟨h0, hf, hp, hc⟩
-  · have : claimClosed sys 2 t = t := by simp [claimClosed, hc, findRecv]
-    rw [this]; exact ⟨hv, rfl, h0, fun _ => rfl, fun h => absurd h h0⟩
-  all_goals (simp [claimClosed, hc, findRecv, Thread.putOpt, Valid, h0, hf, hp])
-
-theorem no_parked_sender_done {s : State} (hval : ∀ (i : Nat) t, s.threads[i]? = some t → Valid t) :
-    s.threads.any (parkedSender sys 2) = false := by
-  rw [List.any_eq_false]
-  intro ti hti
-  obtain ⟨i, hi, rfl⟩ := List.getElem_of_mem hti
-  have hti' : s.threads[i]? = some s.threads[i] := List.getElem?_eq_getElem hi
-  rcases parked_cases (hval i _ hti') with ⟨h0, hc⟩ | ⟨h0, hf, hp, hc⟩ | ⟨h0, hf, hp, hc⟩ | ⟨h0, hf, hp, hc⟩ | ⟨h0, hf, hp, hc⟩ <;>
-    simp [parkedSender, hc, findSend]
-
-/-- threads after the `close(f.done)` step of thread `j` -/
-theorem close_threads {s : State} {j i : Nat} {t t' : Thread}
-    (h : ((s.threads.map (claimClosed sys 2)).set j t)[i]? = some t') :
-    (i = j ∧ t' = t) ∨ (i ≠ j ∧ ∃ ti, s.threads[i]? = some ti ∧ t' = claimClosed sys 2 ti) := by
-  rcases set_getElem?_cases h with ⟨rfl, rfl, _⟩ | ⟨hne, hi⟩
-  · left; exact ⟨rfl, rfl⟩
-  · right
-    rw [List.getElem?_map] at hi
-    cases hs : s.threads[i]? with
-    | none => rw [hs] at hi; cases hi
-    | some ti => rw [hs] at hi; simp at hi; exact ⟨hne, ti, rfl, hi.symm⟩
-
-theorem spawn_cases {fn : Nat} {f : FnDef} (hsp : sys.spawnable.contains fn = true)
-    (hf : sys.fns[fn]? = some f) : (fn = 0 ∧ f = doFn) ∨ (fn = 2 ∧ f = closeFn) := by
-  simp [sys] at hsp hf
-  rcases hsp with rfl | rfl <;> simp at hf <;> simp [hf]
-
-structure Basic (s : State) : Prop where
-  noPanic : s.panic = false
-  nonempty : s.threads ≠ []
-  valid : ∀ (i : Nat) t, s.threads[i]? = some t → Valid t
-  runner : ∀ (i : Nat) t, s.threads[i]? = some t → (t.fn = 1 ↔ i = 0)
-  hold1 : ∀ (i : Nat) t, s.threads[i]? = some t → holds t = true → s.holder = some i
-  hold2 : ∀ (i : Nat), s.holder = some i → ∃ t, s.threads[i]? = some t ∧ holds t = true
-  closedOnly : ∀ ch ∈ s.closed, ch = 2
-  flagClosed : 2 ∈ s.closed → s.flag = true
-  atSet : ∀ (i : Nat) t, s.threads[i]? = some t → t.fn = 2 → t.pc = 2 → s.flag = false
-  atClose : ∀ (i : Nat) t, s.threads[i]? = some t → t.fn = 2 → t.pc = 3 → 2 ∉ s.closed
-  atCloseFlag : ∀ (i : Nat) t, s.threads[i]? = some t → t.fn = 2 → t.pc = 3 → s.flag = true
-  awake : 2 ∈ s.closed → ∀ (i : Nat) t, s.threads[i]? = some t → t.st ≠ .parked
 
 set_option hygiene false in
 macro "basic_tac" : tactic => `(tactic| (
@@ -121,29 +15,6 @@ macro "basic_tac" : tactic => `(tactic| (
 set_option hygiene false in
 macro "basic_fin" : tactic => `(tactic| (
   refine ⟨?_, ?_, ?_, ?_, ?_, ?_, ?_, ?_, ?_, ?_, ?_, ?_⟩ <;> simp only [State.setThread, State.emit, State.doPanic, List.getElem?_set] <;> grind [holds, goto, Valid, Thread.put, Thread.get, Thread.putOpt, findSend, findRecv]))
-
-set_option hygiene false in
-macro "sel_partner" fin:tactic : tactic => `(tactic| (
-  have hpk := parked_cases (hval p tp htp)
-  have hpl := getElem?_lt htp
-  rcases k with _ | _ | k <;> simp at hk
-  all_goals (
-    obtain ⟨rfl, rfl, rfl⟩ := hk
-    rcases hpk with ⟨h0, hc⟩ | ⟨h0, hf', hp', hc⟩ | ⟨h0, hf', hp', hc⟩ | ⟨h0, hf', hp', hc⟩ | ⟨h0, hf', hp', hc⟩ <;>
-      simp [hc, findSend, findRecv] at hf
-    all_goals (obtain ⟨rfl, rfl⟩ := hf; $fin))))
-
-set_option hygiene false in
-macro "sel_cases" fin:tactic : tactic => `(tactic| (
-  rcases exec_select hex with ⟨hk, hkl, hall, rfl⟩ | ⟨ch, r, n, hk, hcl, rfl⟩ | ⟨ch, r, n, tp, rp, np, hk, hcl, htp, hf, rfl⟩ | ⟨ch, r, n, hk, hcl, rfl⟩ | ⟨ch, r, n, tp, rp, np, hk, hcl, htp, hf, rfl⟩
-  · simp [caseReady] at hall
-    $fin
-  · rcases k with _ | _ | k <;> simp at hk
-    all_goals (obtain ⟨rfl, rfl, rfl⟩ := hk; $fin)
-  · sel_partner $fin
-  · rcases k with _ | _ | k <;> simp at hk
-    all_goals (obtain ⟨rfl, rfl, rfl⟩ := hk; $fin)
-  · sel_partner $fin))
 
 set_option maxHeartbeats 4000000 in
 theorem basic_step {s s' : State} {l : Label} (I : Basic s) (h : next sys s l = some s') : Basic s' := by
@@ -176,9 +47,11 @@ theorem basic_step {s s' : State} {l : Label} (I : Basic s) (h : next sys s l = 
       · have hcp : ∀ (i : Nat) ti, s.threads[i]? = some ti → _ := fun i ti hti => claim_props (hval i ti hti)
         refine ⟨?_, ?_, ?_, ?_, ?_, ?_, ?_, ?_, ?_, ?_, ?_, ?_⟩ <;> simp only [State.setThread, State.emit]
         · exact hp
-        · intro h0
-          have : ((s.threads.map (claimClosed sys 2)).set j (goto t 4)).length = s.threads.length := by simp
-          rw [h0] at this; simp at this; omega
+        · obtain ⟨r, hr0, hrf⟩ := hne
+          have hj0 : j ≠ 0 := by
+            intro e; subst e; rw [ht] at hr0; cases hr0; omega
+          refine ⟨claimClosed sys 2 r, ?_, by rw [(hcp 0 r hr0).2.1]; exact hrf⟩
+          rw [List.getElem?_set_ne hj0, List.getElem?_map, hr0]; rfl
         · intro i t' hi
           rcases close_threads hi with ⟨rfl, rfl⟩ | ⟨hne, ti, hti, rfl⟩
           · grind [goto, Valid]
@@ -274,9 +147,8 @@ theorem basic_step {s s' : State} {l : Label} (I : Basic s) (h : next sys s l = 
     obtain ⟨hp, hsp, f, hf, rfl⟩ := next_spawn h
     have hfn := spawn_cases hsp hf
     have hlen : 0 < s.threads.length := by
-      rcases hl : s.threads with _ | ⟨x, r⟩
-      · exact absurd hl hne
-      · simp
+      obtain ⟨r, hr0, _⟩ := hne
+      exact getElem?_lt hr0
     refine ⟨?_, ?_, ?_, ?_, ?_, ?_, ?_, ?_, ?_, ?_, ?_, ?_⟩ <;> simp only [State.emit, List.getElem?_append, FnDef.mkThread] <;>
       grind [holds, Valid, doFn, closeFn, regInit]
   | spurious j =>
